@@ -157,8 +157,9 @@ fn invalid_args(ident_name: &IdentName, call: &CallExpr) -> bool {
         let args_array = &call.args[1];
         if args_array.expr.is_array() {
             let array = args_array.expr.as_array().unwrap();
+            // (every element of the arguments array counts: the `this` argument is not part of it)
             return this.expr.is_lit()
-                && array.elems.iter().skip(1).all(|elem| {
+                && array.elems.iter().all(|elem| {
                     if elem.is_none() {
                         return false;
                     }
